@@ -43,7 +43,7 @@ _MIASM_EXPORT uint64_t rot_left(uint64_t size, uint64_t a, uint64_t b);
 _MIASM_EXPORT uint64_t rot_right(uint64_t size, uint64_t a, uint64_t b);
 
 _MIASM_EXPORT uint64_t cntleadzeros(uint64_t size, uint64_t src);
-_MIASM_EXPORT unsigned int cnttrailzeros(uint64_t size, uint64_t src);
+_MIASM_EXPORT uint64_t cnttrailzeros(uint64_t size, uint64_t src);
 
 #define UDIV(sizeA)						\
 	uint ## sizeA ## _t udiv ## sizeA (uint ## sizeA ## _t a, uint ## sizeA ## _t b) \
